@@ -246,6 +246,7 @@ def run(ck, fb):
                    'R14f', 'refresh_process_range:sends-current', rp.where(), 'refresh_process_range does not send current_range to the naming actor')
     r14g(ck, fb)
     r14h(ck, fb)
+    r14j(ck, fb)
     ck.rule('R14e', 'ownership use: NamingActor::update_instance computes at_process_range = current_range.is_range(get_hash_value(key)) and '
                     'clears from_cluster / client_id only when in range and not gRPC')
     nu = ck.body(NA + 'update_instance', 'R14e')
@@ -344,3 +345,26 @@ def r14h(ck, fb, R='R14h'):
                        '%s builds a node entry with status %s: routing (status == Valid) leaves the node out while ownership (is_local || Valid) counts '
                        'it - for the local entry the node routes the services it owns to other nodes' % (fb.root_of(b.name), v), 'Valid')
     ck.floor(R, 'ClusterInnerNode entries built in the node manager', n, 2)
+
+
+def r14j(ck, fb, R='R14j'):
+    ck.rule(R, '"an HTTP write for a service is routed to precisely the node that considers itself its owner": in NamingRoute::update_instance / '
+               'delete_instance the arm for a REMOTE owner hands the write to that node and never applies it to the local naming actor - not as a '
+               'fallback either. A write applied locally when the forward fails is held by a node that is not the owner (from_cluster == 0 there): '
+               'two nodes supervise and announce the same instance as their own, or - when the owner is really down - nobody was asked to take '
+               'over. The failure is the caller\'s to retry')
+    NR = 'rnacos::naming::cluster::route::NamingRoute::'
+    n = 0
+    for fn in ('update_instance', 'delete_instance'):
+        b = ck.main(NR + fn, R)
+        if not b:
+            continue
+        sends = util.sends(b, r'naming::core::NamingCmd$')
+        local = [(s0, v0) for (s0, m0, v0, a0) in sends if v0 in ('Update', 'Delete', 'UpdateBatch', 'RemoveBatch')]
+        n += len(local)
+        bad = [(s0, v0) for (s0, v0) in local if any(v == 'Remote' for (adt, v) in util.variant_guards(b, s0.bb))]
+        ck.require(not bad, R, '%s:remote-owner-write-not-applied-locally' % fn, (bad[0][0].where() if bad else b.where()),
+                   'NamingRoute::%s applies a write whose owner is ANOTHER node to the local naming actor (NamingCmd::%s in the Remote arm): the '
+                   'instance is held - supervised, announced - by a node that does not own the service' % (fn, bad[0][1] if bad else ''),
+                   'local application only in the Local arm')
+    ck.floor(R, 'local applications of a routed write', n, 2)
